@@ -44,10 +44,10 @@ structure Run (σ : Type) where
 def bump (m : Std.HashMap String Nat) (k : String) : Std.HashMap String Nat :=
   m.insert k (m.getD k 0 + 1)
 
-def report {σ : Type} (r : Run σ) (line : Nat) (kind detail : String) : IO (Run σ) := do
-  let r := { r with mism := r.mism + 1, kinds := bump r.kinds kind }
+def report {σ : Type} (r : Run σ) (line : Nat) (kind detail : String) (op : String := "-") : IO (Run σ) := do
+  let r := { r with mism := r.mism + 1, kinds := bump r.kinds (kind ++ "/" ++ op) }
   if r.printed < 40 then
-    IO.println s!"M {line} {kind} {detail}"
+    IO.println s!"M {line} {kind} {op} | {detail}"
     return { r with printed := r.printed + 1 }
   else return r
 
@@ -100,14 +100,14 @@ def handleLine {σ : Type} (sys : Sys σ) (r : Run σ) (lineNo : Nat) (line : St
               | none => .error s!"unknown state {i}"
             | none => .error "bad pre token"
         match preE with
-        | .error e => report { r with cur := none } lineNo "decode" s!"pre-state of `{op}`: {e}"
+        | .error e => report { r with cur := none } lineNo "decode" s!"pre-state of `{op}`: {e}" op
         | .ok pre =>
           let some (post', res') := sys.step pre op args | report r lineNo "parse" s!"unknown op {op}"
           let mut r := r
           for c in sys.cover pre op args do
             r := { r with cover := bump r.cover c }
           if res'.trimAscii.toString != res.trimAscii.toString then
-            r ← report r lineNo "result" s!"`{op} {args}` on {sys.show_ pre}: implementation {res}, model {res'}"
+            r ← report r lineNo "result" s!"`{op} {args}` on {sys.show_ pre}: implementation {res}, model {res'}" op
           -- trace
           let tr := trace.trimAscii.toString
           if tr != "" then
@@ -115,9 +115,9 @@ def handleLine {σ : Type} (sys : Sys σ) (r : Run σ) (lineNo : Nat) (line : St
             | some path =>
               let (keys, maxRun) := parseTrace tr
               if keys != path then
-                r ← report r lineNo "trace" s!"`{op} {args}` on {sys.show_ pre}: compared with {keys}, model path {path}"
+                r ← report r lineNo "trace" s!"`{op} {args}` on {sys.show_ pre}: compared with {keys}, model path {path}" op
               if maxRun > 2 then
-                r ← report r lineNo "trace" s!"`{op} {args}`: a key was compared {maxRun} times"
+                r ← report r lineNo "trace" s!"`{op} {args}`: a key was compared {maxRun} times" op
             | none => pure ()
           -- post-state
           let pt := postTok.trimAscii.toString
@@ -127,19 +127,19 @@ def handleLine {σ : Type} (sys : Sys σ) (r : Run σ) (lineNo : Nat) (line : St
             match pt.toNat? >>= fun i => r.table[i]? with
             | none => report r lineNo "parse" s!"unknown post state {pt}"
             | some (hx, .error e) =>
-              report { r with cur := some post' } lineNo "decode" s!"post-state of `{op} {args}` ({hx}): {e}"
+              report { r with cur := some post' } lineNo "decode" s!"post-state of `{op} {args}` ({hx}): {e}" op
             | some (hx, .ok d) =>
               for w in sys.wf d do
-                r ← report r lineNo ("wf-" ++ w) s!"after `{op} {args}`: {sys.show_ d}"
+                r ← report r lineNo ("wf-" ++ w) s!"after `{op} {args}`: {sys.show_ d}" op
               if !sys.absEq d post' then
-                r ← report r lineNo "abs" s!"`{op} {args}` on {sys.show_ pre}: implementation {sys.show_ d}, model {sys.show_ post'}"
+                r ← report r lineNo "abs" s!"`{op} {args}` on {sys.show_ pre}: implementation {sys.show_ d}, model {sys.show_ post'}" op
               else if !sys.eq d post' then
-                r ← report r lineNo "state" s!"`{op} {args}` on {sys.show_ pre}: implementation {sys.show_ d}, model {sys.show_ post'}"
+                r ← report r lineNo "state" s!"`{op} {args}` on {sys.show_ pre}: implementation {sys.show_ d}, model {sys.show_ post'}" op
               else
                 match sys.encode post' with
                 | some bs =>
                   if hexOfBytes bs != hx then
-                    r ← report r lineNo "bytes" s!"`{op} {args}`: implementation {hx}, model {hexOfBytes bs}"
+                    r ← report r lineNo "bytes" s!"`{op} {args}`: implementation {hx}, model {hexOfBytes bs}" op
                 | none => pure ()
               -- continue from the real state (keeps later lines meaningful after a mismatch)
               return { r with cur := some d }
